@@ -7,7 +7,7 @@ TB = ("Trusted: Kani 0.68/CBMC 6.11 translation of the pinned nightly std (dev p
       "(capacity 6) and tracing by empty macros during solving - counterexamples are replayed on the real crates before being reported.")
 CLAIMED = {
     "C20": dict(
-        text="Solver decides, for every valid UTF-8 string of 0..=8 bytes (quick 0..=6) and 'HP:'+7/10/11 arbitrary bytes, that "
+        text="Solver decides, for every valid UTF-8 string of 0..=8 bytes and 'HP:'+7/10/11 arbitrary bytes, that "
              "HpoTermId::try_from never panics and returns Ok(v) iff the text after byte 3 is an unsigned 32-bit decimal (value exact); "
              "byte/integer conversions are mutually inverse for all u32. Bounded model checking is the right level: the parser is a "
              "small loop-per-byte kernel whose rare failing inputs (multi-byte char straddling offset 3, overflow border) the solver finds directly.",
